@@ -13,7 +13,8 @@ LEVEL_TEXT = ("TLA+ module XmlDoc defines the documented subset twice, independe
               "and emits [document, tree] cases.  Every such document is read by the real readXML (ASan+UBSan build, file on disk) and the "
               "returned tree is compared with the tree TLC computed.  For everything else - the same short-string set enumerated natively, "
               "every truncation / deletion / substitution / insertion (and truncation followed by one more symbol) of sampled generated "
-              "documents over a 27-symbol alphabet incl. dash runs, NUL, VT, FF, 0x1C-0x1F, DEL, 0x80 and 0xFF (always among them documents with blank-padded "
+              "documents over a 58-symbol alphabet (27 fixed symbols + the bytes 0x85 0x89 0x8A 0x8D 0xA0 0xC9 0xCA 0xCD 0xE0 + 22 seeded further bytes "
+              ">= 0x80) incl. dash runs, NUL, VT, FF, 0x1C-0x1F, DEL, 0x80 and 0xFF (always among them documents with blank-padded "
               "text), every character-data run of length <= 3 over { t, space, LF, tab, VT, FF } in three positions, seeded random token and byte strings, documents nested 2000 deep - only the way the call ends is constrained "
               "(returned, or std::runtime_error; the admissible set is supplied by the specification); every other ending (sanitizer report, "
               "signal, other exception type, no progress for 120 s) is attributed to its input in a forked child, judged and classified by "
@@ -25,7 +26,8 @@ LEVEL_NOTE = ("exhaustive over: 4 core trees (two attributes, both quote charact
               "forms x end-tag whitespace x 3 content whitespace forms x 6 comment forms x 3 text positions, minus the combinations of the "
               "separately classed constructs; choices that cannot change the document of a tree are fixed); all trees of depth <= 2, "
               "fan-out <= 2, 2 names, 9 attribute lists, 3 contents with children from 8 (thorough 24) leaves x 8 style profiles; every comment body built from dash runs of 0..5 at its start, middle and end (and bodies of dashes only, '>' "
-              "after a single dash) in 6 positions incl. one where a missed terminator swallows a sibling; every "
+              "after a single dash) in 6 positions incl. one where a missed terminator swallows a sibling; every byte value 0x21..0xFF except markup as content b, bx, xb, bb "
+              "after the start tag / a comment / a child, before a child, blank-padded, and as attribute value in both quote styles; every "
               "string of length <= 6 (thorough 7) over { < > / = \" a space ! }; every content run of length <= 3 over 6 symbols x 3 positions (trees "
               "for the runs inside the subset, the ending only for runs with VT / FF).  Sampled only: mutations (seeded sample of the generated "
               "documents), random strings, random larger documents.  Not decided: totality over all byte strings (only the enumerated / "
@@ -42,7 +44,22 @@ TECHNIQUE = ("TLA+ functional specification (renderer + reference parser) with l
 SPEC = os.path.join(VERIF, "spec", "xml")
 API = "readXML"
 HANG_S = int(os.environ.get("VERIF_C16_HANG_S", "120"))      # no progress on one input for this long = hang (monotonic clock, generous)
-JAVA_ENV = {"JAVA_TOOL_OPTIONS": "-Xss512m"}      # the recursive scans of XmlDoc need a deep stack in TLC's worker threads
+# the recursive scans of XmlDoc need a deep stack in TLC's worker threads; the characters 0x7F..0xFF are written as UTF-8
+JAVA_ENV = {"JAVA_TOOL_OPTIONS": "-Xss512m -Dfile.encoding=UTF-8"}
+REQUIRED_HIGH = [0x85, 0x89, 0x8A, 0x8D, 0xA0, 0xC9, 0xCA, 0xCD, 0xE0, 0xFF]
+
+
+def tlc_env(**kw):
+    """environment of every TLC run: JVM options and the table code -> character (codes 33..255) the specification cannot write itself"""
+    d = os.path.join(WORK, "cases")
+    os.makedirs(d, exist_ok=True)
+    tab = os.path.join(d, "c16-bytes-%d.ndjson" % os.getpid())
+    if not os.path.exists(tab):
+        with open(tab, "w") as f:
+            f.write(json.dumps({"codes": list(range(33, 256)), "chars": [chr(c) for c in range(33, 256)]}) + "\n")
+    e = dict(JAVA_ENV, XML_BYTES=tab, XML_VT="\x0b")
+    e.update(kw)
+    return e
 MUT_ALPHABET = ["<", ">", "/", "=", "\"", "a", " ", "!", "'", "\\", "-", "?", "\x00", "\xff", "&", "\n", "x",
                 # the byte-class boundaries of the C locale that the reader's isspace / isalpha / isdigit calls tell apart and its own
                 # isWhite() does not: VT and FF (isspace only), the separators 0x1C-0x1F, DEL, the first high byte
@@ -114,6 +131,10 @@ class Ctx:
 
     def close(self):
         shutil.rmtree(self.tmpdir, ignore_errors=True)
+        try:
+            os.remove(os.path.join(WORK, "cases", "c16-bytes-%d.ndjson" % os.getpid()))
+        except OSError:
+            pass
 
     def meta(self, **kw):
         m = {"tmpdir": self.tmpdir}
@@ -191,14 +212,13 @@ def judge(chk, lines, tag):
     with open(obsp, "w") as f:
         for i, ln in enumerate(lines):
             f.write(json.dumps({"id": i, "kind": ln["kind"], "doc": list(ln["doc"]), "nul": ["\x00"], "obs": ln["obs"]}, separators=(",", ":")) + "\n")
-    env = {"OBS": obsp, "OUT": outp}
-    env.update(JAVA_ENV)
+    env = tlc_env(OBS=obsp, OUT=outp)
     r = tla.run_tlc(os.path.join(SPEC, "XmlJudge.tla"), os.path.join(SPEC, "XmlJudge.cfg"), workers=8, timeout=3000, env=env, tag="judge-" + tag)
     if not r.ok:
         raise tla.InfraError("XmlJudge failed on %s: violated=%s error=%s\n%s" % (tag, r.violated, r.error, r.out[-2500:]))
     verdicts = {}
     for fpath in glob.glob(outp + "-*"):
-        for x in open(fpath):
+        for x in open(fpath, encoding="utf-8"):
             if x.strip():
                 v = json.loads(x)
                 verdicts[v["id"]] = v
@@ -329,8 +349,9 @@ def check_bulk(cx, hs, results, tag):
 # ---------------------------------------------------------------------------
 NAME0 = "abcdefghijklmnopqrstuvwxyzABCDEFGHIJKLMNOPQRSTUVWXYZ_"
 NAME1 = NAME0 + "0123456789."
-TEXTCH = "".join(chr(c) for c in range(33, 127) if chr(c) not in "<&") + "    "
-VALCH = "".join(chr(c) for c in range(32, 127) if chr(c) not in "<&\\")
+HIGHCH = "".join(chr(c) for c in range(127, 256))
+TEXTCH = "".join(chr(c) for c in range(33, 127) if chr(c) not in "<&") * 3 + " " * 12 + HIGHCH
+VALCH = "".join(chr(c) for c in range(32, 127) if chr(c) not in "<&\\") * 3 + HIGHCH
 WSS = ["", "", " ", "  ", "\n", "\t", "\r\n", "\n    "]
 
 
@@ -388,7 +409,7 @@ def rand_doc(rnd, depth):
         out = "<" + name + "".join(ws(True) + n + attr() for n in names) + ws()
         items = [node(d - 1) for _ in range(rnd.choice([0, 0, 1, 2, 3]) if d > 0 else 0)]
         if rnd.random() < 0.5:
-            t = "".join(rnd.choice(TEXTCH) for _ in range(rnd.choice([1, 2, 6, 20]))).strip()
+            t = "".join(rnd.choice(TEXTCH) for _ in range(rnd.choice([1, 2, 6, 20]))).strip(" \t\r\n")
             if t:
                 items.insert(rnd.randint(0, len(items)), t)
         if not items and rnd.random() < 0.5:
@@ -430,8 +451,8 @@ def do_run(cx, quick, rnd):
     chk = cx.chk
     # ---- 1. TLC: laws of the specification + cases -------------------------------------------------------
     cfg = "XmlDocGen_quick.cfg" if quick else "XmlDocGen_thorough.cfg"
-    cases = sort_keys(funcheck.gen_cases(chk, SPEC, "XmlDocGen", cfg, "c16-gen", workers=16, timeout=3000, env=dict(JAVA_ENV, XML_VT="\x0b"),
-                                         what="RoundTrip, WellFormed, PrefixLaw, ShortLaw, ContentLaw, DashLaw on every slice; one case per document of the subset"))
+    cases = sort_keys(funcheck.gen_cases(chk, SPEC, "XmlDocGen", cfg, "c16-gen", workers=16, timeout=3000, env=tlc_env(),
+                                         what="RoundTrip, WellFormed, PrefixLaw, ShortLaw, ContentLaw, DashLaw, ByteLaw on every slice; one case per document of the subset"))
     reads = [c for c in cases if c["a"] == "Read"]
     enums = [c for c in cases if c["a"] == "Enumerate"]
     policy = [c for c in cases if c["a"] == "Policy"]
@@ -469,6 +490,11 @@ def do_run(cx, quick, rnd):
         st["arg"] = dict(e["arg"], quiet=cx.safe)
         bulk.append([st])
     docs = sorted({c["arg"]["doc"] for c in reads})
+    # the bytes >= 0x80 on which a signed / unsigned or table-driven character test can go wrong, and a seeded sample of the others
+    have = {ord(a) for a in MUT_ALPHABET if len(a) == 1}
+    high = [b for b in REQUIRED_HIGH if b not in have] + rnd.sample([b for b in range(0x80, 0x100) if b not in have and b not in REQUIRED_HIGH], 22)
+    mut_alphabet = MUT_ALPHABET + [chr(b) for b in high]
+    chk.cov["mutation_alphabet_size"] = len(mut_alphabet)
     nmut = 160 if quick else 1500
     mdocs = rnd.sample(docs, min(nmut, len(docs)))
     longest = sorted(docs, key=len)[-4:]
@@ -482,10 +508,10 @@ def do_run(cx, quick, rnd):
     for k in range(0, len(sdocs), 100):
         bulk.append([{"a": "Batch", "cls": "content-family", "arg": {"docs": sdocs[k:k + 100], "quiet": cx.safe}, "exp": {"outcomes": cx.safe}}])
     for d in mdocs + extra:
-        bulk.append([{"a": "Mutations", "arg": {"doc": d, "alphabet": MUT_ALPHABET, "quiet": cx.safe}, "exp": {"outcomes": cx.safe}}])
+        bulk.append([{"a": "Mutations", "arg": {"doc": d, "alphabet": mut_alphabet, "quiet": cx.safe}, "exp": {"outcomes": cx.safe}}])
     # every truncation of a few documents followed by one more symbol (e.g. a backslash right before the end of the file)
     for d in longest + mdocs[:(12 if quick else 60)]:
-        bulk.append([{"a": "Batch", "arg": {"docs": [d[:k] + a for k in range(len(d)) for a in MUT_ALPHABET], "quiet": cx.safe}, "exp": {"outcomes": cx.safe}}])
+        bulk.append([{"a": "Batch", "arg": {"docs": [d[:k] + a for k in range(len(d)) for a in mut_alphabet], "quiet": cx.safe}, "exp": {"outcomes": cx.safe}}])
     nrand, per = (60000, 5000) if quick else (1200000, 5000)
     for k in range(nrand // per):
         bulk.append([{"a": "Random", "arg": {"seed": chk.seed * 1000 + k, "n": per, "maxtok": 3 + (k % 4) * 6, "tokens": RANDOM_TOKENS, "quiet": cx.safe},
@@ -538,6 +564,16 @@ def do_run(cx, quick, rnd):
 
     chk.cov["evaluations"] = cx.calls
     chk.require_actions(["Read", "Enumerate", "Mutations", "Batch", "Random", "Nest"])
+    # vacuity guard: every byte value 0x80..0xFF stood at the start and at the end of a text content that was read and compared
+    at_start, at_end, in_value = set(), set(), set()
+    for c in reads:
+        d = c["arg"]["doc"]
+        at_start.update(ord(x) for x in re.findall(r">[ \n]?([\x80-\xff])", d))
+        at_end.update(ord(x) for x in re.findall(r"([\x80-\xff])[ \n]?</", d))
+        in_value.update(ord(x) for x in re.findall(r"=[\"']([\x80-\xff])", d))
+    chk.cov["high_bytes_read"] = {"content_start": len(at_start), "content_end": len(at_end), "value_start": len(in_value)}
+    if min(len(at_start), len(at_end), len(in_value)) < 128:
+        raise tla.InfraError("vacuity guard: not every byte 0x80..0xFF was read at content start / content end / value start: %s" % chk.cov["high_bytes_read"])
     runs = [r for c in reads for r in closing_dash_runs(c["arg"]["doc"])]
     chk.cov["comments_closed_by_dash_run"] = {"odd>=3": sum(1 for r in runs if r >= 3 and r % 2 == 1), "even>=4": sum(1 for r in runs if r >= 4 and r % 2 == 0)}
     if min(chk.cov["comments_closed_by_dash_run"].values()) < 300:
